@@ -30,4 +30,12 @@ CHECKS.update({
  'C11': _c('C11', 'Part 1: every sort-backed operator is run differentially against its own default call with symbolic keys, buffersize (argument or petl.config), cache, tempdir and presorted on sorted inputs; part 2: symbolic histories of full/partial passes and source edits decide what cache=True/False means (reflect current contents vs replay a completed pass with zero source reads).'),
  'C18': _c('C18', 'Real temp files in a private directory: symbolic histories of create/advance/release operations over 2-3 iterator slots and the view, plus source failures at a symbolic row; after everything is released the directory must be empty, and every live iterator (also one outliving its view or served from the file cache) must deliver the sorted reference.'),
 })
+CHECKS.update({
+ 'C02': _c('C02', 'With counting sources on every input: constructing any catalogue pipeline reads no data row; for streaming entries the rows pulled for k outputs are bounded by the smallest source prefix on which the real operator already yields those outputs (+ the catalogued look-ahead), with and without 3 extra source rows; display functions and compositions of streaming operators likewise.'),
+ 'C03': _c('C03', 'For every catalogue entry over list-of-lists sources (rectangular and ragged), after a partial pass abandoned at a symbolic row plus a full pass: every source container, header, row object and cell is unchanged and every row already delivered still equals its copy taken at yield time.'),
+ 'C12': _c('C12', 'Cell-by-cell reference models of the documented behaviour of cut/cutout/movefield/cat/stack/annex/addfield(s)/addcolumn/addrownumbers/addfieldusingcontext/header functions/convert family/fills/fieldmap/rowmap/sub/accessors, with symbolic row counts, ragged row lengths, field selectors (names, indices, out of range), insertion indices and missing values.'),
+ 'C14': _c('C14', 'melt->recast reproduces the table for unique symbolic keys (incl. compound keys given in another order), transpose is an involution, unflatten(flatten) reproduces the data rows, melt emits one row per cell, pivot cells aggregate exactly the rows with that pair, unpack/unpackdict/capture/split/splitdown expand one field only, fromdicts(dicts) and fromcolumns(columns) round-trip.'),
+ 'C15': _c('C15', 'Real files/codecs/compressors: for every string over an alphabet of special characters up to the bound in one cell (plus pooled cells, ragged rows, header flags), each encoding x source kind and each delimiter x quotechar x quoting mode, from*(to*(t)) == t; to*+append* equals to*(concatenation) in bytes; pickle exact with typed cells; json with JSON types.'),
+ 'C16': _c('C16', 'Every pass-through wrapper yields exactly the wrapped rows (two passes, a partial pass, a pass after it; batch sizes, cache limits, zero clock steps symbolic); after full consumption each tee target equals byte-for-byte what the matching to* writes for the same arguments (encodings, dialect, header flags, templates, html options; path/.gz/memory).'),
+})
 NOT_APPLICABLE = {}
